@@ -477,6 +477,24 @@ func c15Events(c *Ctx, px *c15Proxier) {
 				arg = sc.Call.Value
 			}
 			key := fmt.Sprintf("%s: event.%s in %s", px.name, f.Name(), shortFn(fn))
+			// an event-building helper that is handed the address: judged with what its (single kind of) caller passes
+			if par, isPar := arg.(*ssa.Parameter); isPar {
+				idx := paramIdx(par)
+				var cand ssa.Value
+				for _, g := range px.reach {
+					for _, c2 := range Calls(g) {
+						if c2.Common().StaticCallee() == fn && idx >= 0 && idx < len(c2.Common().Args) {
+							cand = c2.Common().Args[idx]
+						}
+					}
+				}
+				if cand != nil {
+					arg = cand
+					if sc, ok := arg.(*ssa.Call); ok && sc.Call.IsInvoke() && sc.Call.Method.Name() == "String" {
+						arg = sc.Call.Value
+					}
+				}
+			}
 			ac, ok := arg.(*ssa.Call)
 			if !ok || !ac.Call.IsInvoke() {
 				c.Violate("event-attribution", key, p.InstrPos(call), "the event address is not taken from a connection: "+Render(arg))
